@@ -12,8 +12,8 @@ spec = {
    "For every generated well-formed routine set the decompiled text must compile, and both the text read by Lang/SrcSem.v and its recompilation must be accepted as behaviourally equal to the input by the Coq-verified checker; routine tables compared. Universal claim not proved (structuring passes are not modelled)."),
  "C03": ("proof", "Coq proof over a model of the three label passes + exact pass-by-pass correspondence + closed_b (proved sound) on every real result",
    "Comp/Closed.v passes_closed: for every pass input with distinct offsets the result of strip_last_label;LabelFinalizer;OpsLabelJumpToRemover is closed; closed_b_sound. The pass models are compared pass by pass with the real functions on op lists captured from real compilations (macro programs included); closed_b and the table's arity evaluated on every real compilation."),
- "C04": ("proof", "Coq theorem for integer spelling (stdlib decimal conversions); real-code round trip of every parameter kind x context x indent with an explicit exact-form predicate",
-   "Partial proof (integers: parse_print_Z); strings, fixed-point numbers, constants and position marks are decided on the real printers/readers for generated and bounded-exhaustive values against an explicit `has_exact_form` predicate; residue recorded as known findings."),
+ "C04": ("proof", "Coq theorems for integer spelling, single-line and multi-line string literals over models tied to the real printers/readers by correspondence; real-code round trip of every parameter kind x context x indent with an explicit exact-form predicate",
+   "Partial proof (integers: parse_print_Z; single-line strings: single_roundtrip_dq/sq + single_lexes; multi-line strings: multi_roundtrip); fixed-point numbers, constants, position marks and the printing contexts are decided on the real printers/readers for generated and bounded-exhaustive values against an explicit `has_exact_form` predicate; residue recorded as known findings."),
  "C05": (tv, "Coq-verified validator against the inlined program (Lang/Inline.v); import layouts in real directories",
    "compiled macro programs are decided against cfg_of_prog(inline p) by the verified checker; definition orders permuted; import resolution checked on real temporary directory layouts."),
  "C06": (tv, "execution on generated + hand-written hard flow graphs; exactness of the fallback against the renumbered input",
